@@ -522,6 +522,8 @@ type reach struct {
 	version string
 	names   []string
 	entries []*chain.Entry
+	// orderSlots != nil: a state of the request-order family (rpc_orders_test.go); it is served the order requests only
+	orderSlots []felt.Felt
 }
 
 func reachable(version string, depth int) []*reach {
@@ -548,7 +550,7 @@ func reachable(version string, depth int) []*reach {
 			k := fmt.Sprintf("%s|%d", root.String(), len(e.State.Classes))
 			if !seen[k] {
 				seen[k] = true
-				out = append(out, &reach{version, ns, es})
+				out = append(out, &reach{version: version, names: ns, entries: es})
 			}
 			if len(es) < depth {
 				rec(e, ns, es)
@@ -633,6 +635,14 @@ func runRPC(r *ev.Run) {
 	for _, v := range []string{"0.13.2", "0.14.0"} {
 		all = append(all, sharedStorage(v)...)
 	}
+	for _, v := range []string{"0.13.2", "0.14.0"} {
+		if v == "0.14.0" && r.Quick() {
+			continue
+		}
+		rs := repeatedStorage(r, v)
+		r.Add("rpc_request_order_states", int64(len(rs)))
+		all = append(all, rs...)
+	}
 	r.Set("rpc_distinct_states", int64(len(all)))
 	total := tally{}
 	var mu sync.Mutex
@@ -706,6 +716,13 @@ func rpcState(r *ev.Run, rc *reach, newState bool, loc tally) {
 			if p {
 				r.Violate("HARNESS rpc verifier panicked", c.detail(body, map[string]any{"panic": msg}))
 			}
+		}
+		if rc.orderSlots != nil {
+			for _, rq := range orderRequests(rc.orderSlots) {
+				do(rq)
+				loc["#rpc_request_order_calls"]++
+			}
+			continue
 		}
 		latest := "latest"
 		one := func(f felt.Felt) []felt.Felt { return []felt.Felt{f} }
